@@ -25,7 +25,7 @@ static const char *v_opname(int k)
 enum { CF_NV, CF_ES, CF_JUNK, CF_RPOLICY, CF_BUDGET, CF_XTOR0, CF_XTOR1, CF_MAXN };
 
 #define NV 2
-#define MAXN 6000
+#define MAXN 70100
 #define UNKNOWN 0xffffffffu
 
 typedef unsigned __int128 u128;
@@ -385,8 +385,11 @@ static void v_once(const plan_t *p)
             for (i = 0; i < m->n; i++) if (m->tag[i] == UNKNOWN) { m->tag[i] = fresh_tag(); fill(base + i * es, m->tag[i]); }
             memcpy(before, m->tag, sizeof(before[0]) * m->n);
             if (o->kind == V_SORT) {
-                if (o->a[1] % 5 == 4) TRY(cstl_vector_sort(v, cmp_tag, NULL));
-                else TRY(__cstl_vector_sort(v, cmp_tag, NULL, cstl_swap, (cstl_sort_algorithm_t)(o->a[1] % 5)));
+                unsigned al = (unsigned)(o->a[1] % 5);
+                if (m->n > 8000 && al == 0) al = 3;         /* first-element pivot may be quadratic: not on very large vectors */
+                if (al == 4) TRY(cstl_vector_sort(v, cmp_tag, NULL));
+                else TRY(__cstl_vector_sort(v, cmp_tag, NULL, cstl_swap, (cstl_sort_algorithm_t)al));
+                if (m->n > 65536) PROBE("vector_above_2^16");
             } else {
                 TRY(cstl_vector_reverse(v));
             }
@@ -469,8 +472,9 @@ static void v_exec(const plan_t *p)
 static void v_gen(prng_t *r, int mode, plan_t *p)
 {
     static const int sizes[] = { 1, 2, 4, 8, 1, 2, 4, 8, 3, 5, 7, 12, 24, 64 };
-    int longrun = mode != 16 && prng_chance(r, 1, 12), small = !longrun && prng_chance(r, 1, 5);
-    int nops = longrun ? 150 + (int)prng_below(r, 400) : small ? 2 + (int)prng_below(r, 7) : 8 + (int)prng_below(r, 42);
+    int huge = mode == 9 && prng_chance(r, 1, 300);
+    int longrun = !huge && mode != 16 && prng_chance(r, 1, 12), small = !longrun && !huge && prng_chance(r, 1, 5);
+    int nops = huge ? 6 + (int)prng_below(r, 8) : longrun ? 150 + (int)prng_below(r, 400) : small ? 2 + (int)prng_below(r, 7) : 8 + (int)prng_below(r, 42);
     int faults = mode == 9 && prng_chance(r, 3, 10), boundary = mode == 9 && prng_chance(r, 1, 4);
     int i;
     if (mode == 16) nops = 8 + (int)prng_below(r, 22);
@@ -481,7 +485,8 @@ static void v_gen(prng_t *r, int mode, plan_t *p)
     p->cfg[CF_BUDGET] = (uint64_t)1 << (14 + prng_below(r, 7));           /* 16 KiB .. 1 MiB */
     p->cfg[CF_XTOR0] = prng_below(r, 4);
     p->cfg[CF_XTOR1] = prng_below(r, 4);
-    p->cfg[CF_MAXN] = longrun ? 500 + prng_below(r, 4000) : small ? 2 + prng_below(r, 5) : 4 + prng_below(r, 120);
+    p->cfg[CF_MAXN] = huge ? 66000 + prng_below(r, 4000) : longrun ? 500 + prng_below(r, 4000) : small ? 2 + prng_below(r, 5) : 4 + prng_below(r, 120);
+    if (huge) { p->cfg[CF_BUDGET] = (uint64_t)1 << 23; p->cfg[CF_ES] = (uint64_t)(1u << prng_below(r, 4)); }
 
     for (i = 0; i < nops; i++) {
         unsigned x = (unsigned)prng_below(r, 100);
